@@ -2,11 +2,11 @@
 """Regenerates MANIFEST.json from the table below (run after adding a check)."""
 import json
 props=[json.loads(l) for l in open('properties.jsonl')]
-HOOKS=["1665e89","96d799b","cab05af","7674522"]
+HOOKS=["1665e89","96d799b","cab05af","7674522","9152827"]
 # id -> (level text, level note / trusted base, technique)
 built={
-"C05":("Every generated input (token-level mutants of valid programs, random token sequences, truncations at every byte, hostile strings/escapes, malformed numbers in every expression context, nesting to depth 5000, random bytes / invalid UTF-8) goes through the real ParsePipeline and the exported lexer while a monitor watches for escaped panics, the parser's internal recover dump on stderr, tree-xor-error, tree completeness, a one-position PlError whose line/column match its offset, and an ordered gap-free token stream. Held = no refuting observation on the inputs explored.",
-       "trusted: the 10-line reference offset->line/column routine; stderr redirection through os.Stderr; hangs are decided by watchdog + solitary re-run only",
+"C05":("Every generated input (token-level mutants of valid programs, random token sequences, truncations at every byte, hostile strings/escapes, malformed numbers in every expression context, nesting to depth 5000, random bytes / invalid UTF-8) goes through the real ParsePipeline and the exported lexer while a monitor watches for non-termination in logical steps (lexer hook: token requests and state transitions bounded by a multiple of the input length), escaped panics, the parser's internal recover dump on stderr, tree-xor-error, tree completeness, a one-position PlError whose line/column match its offset, and an ordered gap-free token stream. Held = no refuting observation on the inputs explored.",
+       "trusted: the 10-line reference offset->line/column routine; stderr redirection through os.Stderr; the work bounds 4n+64 / 16n+256; a hang inside one lexer state function or a grammar action is decided by watchdog + solitary re-run only",
        "runtime monitor over hostile parser inputs (panic / stderr / result-shape / token-stream invariants)"),
 "C06":("Generated trees (all operator pairs exhaustively, random statement lists over every syntactic form) are printed with only the parentheses the precedence table requires, in a canonical layout and in k seeded layouts with comments / blank lines / line breaks at the admitted places; the tree returned by the real parser, converted to the generator's tree type, must equal the generated tree every time.",
        "trusted: the printer's precedence table (documented levels + gram.y for `in` and unary), the ast->tree converter",
